@@ -330,6 +330,15 @@ class Executor(Evaluator):
             s2.locals[tgt.id] = v
             return [s2]
         if isinstance(tgt, ast.Tuple):
+            if isinstance(v.ty, TOpt) and isinstance(v.ty.inner, TTuple):
+                # unpacking an optional tuple: None raises TypeError, otherwise the payload is unpacked
+                out_ = []
+                for s_, isnone_ in self.fork(st, v.t[0]):
+                    if isnone_:
+                        self.exc_out.append(Outcome('raise', s_, ExcVal(TypeError)))
+                    else:
+                        out_ += self.assign(tgt, SV(v.ty.inner, v.t[1:], py=v.py), s_)
+                return out_
             if isinstance(v.ty, TTuple):
                 items = tuple_items(v)
                 if len(items) != len(tgt.elts):
